@@ -441,24 +441,26 @@ Theorem toml_root_equiv t v out y : has_type v t -> ser_toml_root t v = Ok out -
   exists v', de_value t y = Ok v' /\ sval_eq v v'.
 Proof.
   intros Hty H He. unfold has_type in Hty.
-  destruct t; try (apply (edit_root_equiv _ _ _ _ Hty); [destruct v; exact H|exact He]).
+  assert (Edit : ser_edit_root t v = Ok out -> exists v', de_value t y = Ok v' /\ sval_eq v v')
+    by (intro H0; apply (edit_root_equiv _ _ _ _ Hty H0 He)).
+  destruct t; try (apply Edit; destruct v; exact H).
   - (* a Datetime at the root: { FIELD = "text" }, one string entry: read as written *)
-    destruct v; try (apply (edit_root_equiv _ _ _ _ Hty); [exact H|exact He]).
+    destruct v; try (apply Edit; exact H).
     simpl in H. injection H as <-. simpl in Hty. apply andb_true_iff in Hty as [Hr Hk].
     destruct (equiv_one _ _ _ He) as (y0 & -> & He0). apply equiv_str in He0. subst y0.
     rewrite (de_root_datetime k d Hr Hk). eexists; split; [reflexivity|constructor].
   - (* a struct at the root: the same entries as ValueSerializer writes *)
-    destruct v; try (apply (edit_root_equiv _ _ _ _ Hty); [exact H|exact He]).
-    apply (roundtrip_equiv _ _ _ _ Hty); [|exact He]. rewrite sv_struct.
+    destruct v; try (apply Edit; exact H).
+    apply (roundtrip_equiv _ _ out _ Hty); [|exact He]. rewrite sv_struct.
     rewrite ht_struct in Hty. apply andb_true_iff in Hty as [Hty _]. apply andb_true_iff in Hty as [Hpriv _].
     apply negb_true_iff in Hpriv. rewrite (private_not_dt name Hpriv). exact H.
   - (* an enum at the root *)
-    destruct v as [| | | | | | | | | | | | | |i p]; try (apply (edit_root_equiv _ _ _ _ Hty); [exact H|exact He]).
+    destruct v as [| | | | | | | | | | | | | |i p]; try (apply Edit; exact H).
     simpl in H.
     match type of H with pick ?f ?d vs i = _ => destruct (pick_cases f d vs i) as [([vn var] & Hn & E)|[_ E]]; rewrite E in H end;
       [|discriminate].
     simpl in H. destruct var; try discriminate H.
-    + apply (edit_root_equiv _ _ _ _ Hty); [exact H|exact He].
-    + apply (edit_root_equiv _ _ _ _ Hty); [exact H|exact He].
+    + apply Edit. exact H.
+    + apply Edit. exact H.
     + destruct p; try discriminate H. destruct (zipM ser_value ts vs0); discriminate H.
 Qed.
